@@ -1226,8 +1226,49 @@ def gt_presence(ctx: Ctx) -> RuleResult:
     return r
 
 
+def gt_aliasnorm(ctx: Ctx) -> RuleResult:
+    """Every user-supplied selection list (aliases: node, tag or id) is resolved to ids before it reaches make_subgraph."""
+    from .sib import PARALLEL
+
+    r = RuleResult("GT-ALIASNORM")
+    g = ctx.P.classes[graph_q(ctx)]
+    ms = g.methods.get("make_subgraph")
+    r.require(ms is not None, "make_subgraph not found")
+    n = 0
+    for f in ctx.funcs():
+        if f.module.name.endswith("_twzsa_control") or f.cls is g:
+            continue
+        for call, q in ctx.calls_in(f):
+            if q != ms.qualname:
+                continue
+            for p in PARALLEL:
+                a = arg_for_param(ms.node, call, p, skip_self=True)
+                if a is None:
+                    continue
+                d = dotted(a)
+                if d is None:
+                    raise Undecided(f"{f.short}: selection argument {norm_src(a)} is not a name")
+                # the argument must have been (re)assigned from the alias resolver in this function, or come from a field
+                # that the object resolves in its own initialiser
+                norm = [x for x in iter_own_nodes(f.node) if isinstance(x, ast.Assign) and dotted(x.targets[0]) == d
+                        and isinstance(x.value, ast.Call) and isinstance(x.value.func, ast.Attribute)
+                        and x.value.func.attr in ("get_multiple_nodes_aliases", "alias_to_ids")]
+                internal = [x for x in iter_own_nodes(f.node) if isinstance(x, ast.Assign) and dotted(x.targets[0]) == d
+                            and isinstance(x.value, ast.Attribute) and x.value.attr in ("setup_nodes", "debug_nodes", "root_nodes", "leaf_nodes")]
+                n += 1
+                ok = bool(norm)
+                r.ob(ok, {"call": norm_src(call)[:80], "in": f.short, "selection": p, "argument": d,
+                          "resolved by": norm_src(norm[0]) if norm else None})
+                if not ok:
+                    r.violate(f"{f.short}: selection list '{d}' reaches make_subgraph without alias resolution", f.loc(call),
+                              "users may name nodes by reference, tag or id; a list that is not passed through the alias resolver is "
+                              "compared with node ids as is: tags and node references select nothing or raise", norm_src(call))
+    r.require(n >= 6, f"only {n} selection arguments reaching make_subgraph")
+    return r
+
+
 RULES = {
     "GT-MODEL": gt_model, "GT-CARRY": gt_carry, "GT-PRIO-SINK": gt_prio_sink, "GT-POP": gt_pop, "GT-FORMULA": gt_formula,
     "GT-RECONF": gt_reconf, "GT-CYCLE": gt_cycle, "GT-SELECT": gt_select, "GT-ALIAS": gt_alias, "GT-GATE": gt_gate,
-    "GT-DEBUGINC": gt_debuginc, "GT-PRESENCE": gt_presence,
+    "GT-DEBUGINC": gt_debuginc, "GT-PRESENCE": gt_presence, "GT-ALIASNORM": gt_aliasnorm,
 }
